@@ -75,6 +75,26 @@ def run(ctx):
         cmds.append("CFGSET %x %x %s" % (lay, tr, " ".join("%s=%s" % (kstr(k), impl.show_val(v)) for k, v in items)))
         cmds.append("CFGDEL %x %x %s" % (lay, tr, " ".join(kstr(k) for k, _ in items)))
         cmds.append("CFGPOLL %x %x %s" % (lay, pos, " ".join(kstr(k) for k, _ in items)))
+    # boundary values of every key type, alone in the list, by name and by id
+    bytype = {}
+    for name, (kid, ty) in db:
+        bytype.setdefault(ty, []).append((name, kid))
+    for ty, ks in sorted(bytype.items()):
+        c, n = ty[0], int(ty[1:4])
+        if c == "I":
+            vals = [-(1 << (8 * n - 1)), -(1 << (8 * n - 1)) + 1, -1, 0, (1 << (8 * n - 1)) - 1]
+        elif c in "UEL":
+            vals = [0, 1, (1 << (8 * n)) - 1]
+        elif c == "X":
+            vals = [bytes(n), b"\xff" * n]
+        else:
+            vals = [0.0, -1.5, 3.0e38 if n == 4 else 1e308]
+        for name, kid in rng.sample(ks, min(len(ks), 3)):
+            for v in vals:
+                for key in (name, kid):
+                    lay, tr, pos = rng.choice([0, 1, 7]), rng.choice([0, 1, 3]), 0
+                    cases.append((lay, tr, pos, [(key, v)]))
+                    cmds.append("CFGSET %x %x %s=%s" % (lay, tr, kstr(key), impl.show_val(v)))
     # parse of VALSET / VALGET frames with any list of known/unknown keys (built independently)
     frames = []
     for it in range(150 if ctx.quick() else 2000):
